@@ -32,7 +32,12 @@ class InjectedFault(Exception):
     pass
 
 
-FAULT_TYPES = [InjectedFault, AttributeError, KeyError, ZeroDivisionError, NotImplementedError, TypeError, LookupError]
+class AbortRun(BaseException):
+    """A user's own 'stop everything' signal: not an Exception subclass (like KeyboardInterrupt)."""
+
+
+FAULT_TYPES = [InjectedFault, AttributeError, KeyError, ZeroDivisionError, NotImplementedError, TypeError, LookupError,
+               AbortRun, RuntimeError]
 # (not StopIteration: PEP 479 turns it into RuntimeError inside any generator, dagrt's or not)
 
 
@@ -211,8 +216,8 @@ def check_case(case, collect=None):
                             for evt in stepper.run_single_step():
                                 pass
                             done += 1
-                        except Exception as e2:
-                            if e2 is fp.exc:
+                        except BaseException as e2:
+                            if e2 is fp.exc or not isinstance(e2, Exception):
                                 raise
                             nm2 = type(e2).__name__
                             if nm2 == "FailStepException":
@@ -228,9 +233,11 @@ def check_case(case, collect=None):
                         n += 1
                         if n > 80:
                             break
-            except Exception as e:
+            except BaseException as e:
                 if e is fp.exc:
                     caught = e
+                elif not isinstance(e, Exception):
+                    raise
                 else:
                     problems.append("%s: fault %s#%d (%s) surfaced as %s: %s" % (
                         backend, site, j, exc_type.__name__, type(e).__name__, str(e)[:80]))
